@@ -220,7 +220,13 @@ def D16():
     print("D16", "DEFECT" if len(calls) > 1 else "OK", "accepts after the limit was reached:", len(calls) - 1)
 
 
-ALL = {"D14": D14, "D15": D15, "D16": D16, "D1": D1, "D2": D2, "D3": D3, "D4": D4, "D5": D5_D6, "D6": D5_D6, "D7": D7, "D8": D8, "D9": D9, "D10": D10, "D11": D11, "D12": D12, "D13": D13}
+def D17():
+    c = Config()
+    c.set("sendfile", True)
+    print("D17", "DEFECT" if c.sendfile is not True else "OK", "cfg.sendfile after set('sendfile', True) =", c.sendfile)
+
+
+ALL = {"D14": D14, "D15": D15, "D16": D16, "D17": D17, "D1": D1, "D2": D2, "D3": D3, "D4": D4, "D5": D5_D6, "D6": D5_D6, "D7": D7, "D8": D8, "D9": D9, "D10": D10, "D11": D11, "D12": D12, "D13": D13}
 
 if __name__ == "__main__":
     want = sys.argv[1:] or ["D1", "D2", "D3", "D4", "D5", "D7", "D8", "D9", "D10", "D11", "D12", "D13"]
